@@ -39,6 +39,9 @@ def run(ctx, w):
     flag = ("arg1", T.flag)
 
     # ---- L4 -------------------------------------------------------------------------------------------
+    ctx0 = ctx
+    sem = shared.gc_verdict(ctx0, w, S, T, "L4s")
+    ctx = shared.Deferred(ctx0, {"L4", "L5"}, sem)
     ctx.rule("L4", "the gc consumes the flag and trims; the trim drains ..(size - soft) exactly when size > hard, with size = len - rows, only when a limit is configured")
     g = T.buf_gc
     gb = w.body(g)
@@ -121,6 +124,7 @@ def run(ctx, w):
                     okm = t[0] == "call" and t[1].endswith("::map") and t[2][0] == ("load", ("arg3",)) and t[2][1][0] == "closure"
         ctx.check(okm, "L5", "from-config", "the buffer's limit is not derived from its scrollback_limit parameter alone", loc=w.fn_loc(bn))
     ctx.floor("L5", 3, "limit obligations")
+    ctx = ctx0
 
     # ---- L6 ----------------------------------------------------------------------------------------------------------------
     from rules import c06
